@@ -15,6 +15,7 @@ Not decided: programs beyond the bound whose trees go through helper-laden refer
 """
 from __future__ import annotations
 
+import re
 import time
 
 from checks import e1common, oracle, pool, refcommon
@@ -56,6 +57,9 @@ def standin(rep: Report):
         progs.extend(pool.split_statements(f)[: (40 if rep.tier == "quick" else 400)])
     progs += ["if a:\n    if b:\n        c\n    \f    d\n", "x = 1\n \fy = 2\n", "if a:\n\tb\n\tif c:\n\t\td\n\te\n", "x = (1 +\n     2)\n", "class A:\n    def f(self):\n        return 1\n\n    x = 2\n",
               "'a' 'b'  'cd'\n", "x = 'a' \\\n    'b'\n", "def f(*a: *b): pass\n", "() = x\n", "del ()\n", "x = \"p'\"\n", "a = b'x' b'y'\n", "x = u'a'\n"]
+    # non-ASCII text: identifiers, strings, comments (CPython counts columns in UTF-8 bytes)
+    progs += ["x = '\u4e2d' + y\n", "\u00e9t\u00e9 = 1; y = 2\n", "f('\u00fc', b)  # \u00e9\n", "x = 1  # \u4e2d\ny = 2\n", "def \u0192(\u03b1, \u03b2=1):\n    return \u03b1 + \u03b2\n",
+              's = """\u00e9\n\u4e2d""" + t\n']
     progs = [p for p in dict.fromkeys(progs) if not any(c in p for c in XONSH_CHARS) and not has_fstring(p)]
     cases = []
     for p in progs:
@@ -81,7 +85,9 @@ def standin(rep: Report):
         elif o.get("dump") != r.get("dump"):
             a, b = o.get("dump") or "", r.get("dump") or ""
             i = next((i for i, (x, y) in enumerate(zip(a, b)) if x != y), min(len(a), len(b)))
-            si.failures.append({"input": c["src"], "site": "tree-differs", "what": f"tree differs from ast.parse at dump offset {i}: ours ...{a[max(0, i - 60):i + 60]}... vs ...{b[max(0, i - 60):i + 60]}...",
+            cols = re.compile(r"(end_)?col_offset=\d+")
+            site = "span:non-ascii-columns" if (not c["src"].isascii()) and cols.sub("", a) == cols.sub("", b) else "tree-differs"
+            si.failures.append({"input": c["src"], "site": site, "what": f"tree differs from ast.parse at dump offset {i}: ours ...{a[max(0, i - 60):i + 60]}... vs ...{b[max(0, i - 60):i + 60]}...",
                                 "observed": {"ours": a[max(0, i - 80):i + 80], "cpython": b[max(0, i - 80):i + 80]}})
     si.samples = [cases[0]["src"], cases[5]["src"]]
     si.seconds = time.time() - t0
